@@ -311,6 +311,28 @@ def run_batch(pid, tier, verif_seed, nruns, nworkers, max_wall):
     return rc
 
 
+def dump_digests(pid, tier, verif_seed, n, nworkers, out):
+    """run n seeds and write {run_seed: digest} (determinism proof: compare two invocations)"""
+    pool = runner.Pool(nworkers)
+    res = {}
+    errs = []
+
+    def on(r):
+        if r.get("status") != "ok":
+            errs.append(r.get("error"))
+        elif not r.get("real_timeout_guard"):
+            res[str(r["run_seed"])] = r["digest"]
+    jobs = [{"pid": pid, "run_seed": runner.run_seed_for(verif_seed, pid, i), "tier": tier, "timeout": 60, "job_id": i} for i in range(n)]
+    if nworkers % 2:
+        jobs.reverse()
+    pool.map(jobs, on)
+    pool.close()
+    with open(out, "w") as fh:
+        json.dump({"digests": res, "errors": errs[:5]}, fh)
+    print(f"{pid}: {len(res)} digests written to {out} ({len(errs)} errors)")
+    return 0 if not errs else 2
+
+
 def selftest():
     """imports, seam self-check, determinism smoke on 24 seeds."""
     pool = runner.Pool(4)
@@ -348,6 +370,8 @@ def main():
     ap.add_argument("--workers", type=int, default=int(os.environ.get("VERIF_WORKERS", "16")))
     ap.add_argument("--max-wall", type=float, default=None)
     ap.add_argument("--selftest", action="store_true")
+    ap.add_argument("--digests", type=int, default=None, help="write the event digests of N seeds to --out and exit")
+    ap.add_argument("--out", default=None)
     args = ap.parse_args()
     try:
         runner.warm_import()
@@ -358,6 +382,8 @@ def main():
         seed = args.seed if args.seed is not None else int(os.environ.get("VERIF_SEED", "0") or 0)
         if args.replay:
             return do_replay(args.pid, args.replay)
+        if args.digests:
+            return dump_digests(args.pid, args.tier, seed, args.digests, args.workers, args.out or f"/tmp/digests_{args.pid}.json")
         max_wall = args.max_wall
         if max_wall is None:
             max_wall = 240 if args.tier == "quick" else 3000
